@@ -368,6 +368,53 @@ def r_member_lookup(P, rep):
         rep.undecided('R04.9', 'parse.c:get_struct_member', 'no path returns a named member')
 
 
+def r_frame(cg, P, rep):
+    """R04.5: frame layout: every local gets a home inside the frame, aligned to its own alignment (arrays of >= 16 bytes to 16),
+    homes are pairwise disjoint, the frame size is a multiple of 16"""
+    from ..lib_abi import Builder
+    from .c06 import run_callee
+    rep.rule('R04.5', 'frame layout: every local and register parameter gets a home inside the 16-aligned frame, aligned to its own (possibly _Alignas-raised) alignment, arrays of at least 16 bytes to 16, and no two homes overlap', floor=8)
+    B = Builder(P)
+    where = '%s:%d' % (U, cg.cu.fn('assign_lvar_offsets').line if cg.cu.fn('assign_lvar_offsets') else 0)
+    cases = [
+        [(1, 1, False), (4, 4, False), (8, 8, False)],
+        [(3, 1, True), (17, 1, True), (16, 1, True), (15, 1, True)],
+        [(1, 1, False), (1, 64, False), (2, 2, False)],
+        [(24, 8, False), (1, 1, False), (16, 16, False), (5, 1, True), (32, 32, True)],
+    ]
+    for ci, locs in enumerate(cases):
+        for params in ([], ['int', 'double', 's_ld'], ['long'] * 7 + ['s_l3']):
+            key = '%s:assign_lvar_offsets:locals%d/params%d' % (U, ci, len(params))
+            try:
+                box, offsets, stack_size, tr, s = run_callee(cg, B, params, extra_locals=locs)
+            except Unknown as e:
+                rep.undecided('R04.5', key, str(e), where=where); continue
+            homes = []
+            ok = True
+            msg = ''
+            objs = [(v, sz, (16 if (arr and sz >= 16) else 1) * 1 if False else (max(16, al) if (arr and sz >= 16) else al)) for v, (sz, al, arr) in zip(box['extras'], locs)]
+            objs.append((box['ab'], 8, 8))
+            for v, sz, al in objs:
+                off = v.fields.get('offset')
+                if not isinstance(off, int) or off >= 0 or not isinstance(stack_size, int) or -off > stack_size:
+                    ok = False; msg = 'local %s has offset %r outside the frame of %r bytes' % (v.label, off, stack_size); break
+                if off % al:
+                    ok = False; msg = 'local %s (size %d, alignment %d) is placed at %d(%%rbp): misaligned relative to the 16-aligned frame base' % (v.label, sz, al, off); break
+                homes.append((off, off + sz, v.label))
+            for p, t in zip(box['params'], params):
+                off = p.fields.get('offset')
+                if isinstance(off, int) and off < 0:
+                    from ..lib_abi import size_of
+                    homes.append((off, off + size_of(t), p.label))
+            homes.sort()
+            for a, b in zip(homes, homes[1:]):
+                if a[1] > b[0]:
+                    ok = False; msg = 'objects %s [%d,%d) and %s [%d,%d) overlap in the frame' % (a[2], a[0], a[1], b[2], b[0], b[1])
+            if ok and stack_size % 16:
+                ok = False; msg = 'frame size %d is not a multiple of 16' % stack_size
+            rep.ob('R04.5', key, ok, 'frame layout: %s' % msg, where=where, facts={'homes': homes, 'stack_size': stack_size})
+
+
 def run(P, rep, tier):
     cg = wrap(CG(P))
     rep.explanation = ('Address/width/mask arithmetic of every lvalue form, decided as formulas: the code generator is abstractly interpreted on abstract nodes whose layout fields '
@@ -379,6 +426,7 @@ def run(P, rep, tier):
     r_copy_loops(cg, rep)
     r_addr(cg, rep)
     r_member_lookup(P, rep)
+    r_frame(cg, P, rep)
     from ..lib_types import r_pointer_scaling
     rep.rule('R04.10', 'element addresses: p+n / p[n] / p-n scale the index by the element size in 64-bit arithmetic (shared with R01.3)', floor=9)
     r_pointer_scaling(P, rep, 'R04.10')
